@@ -155,6 +155,7 @@ func c11Short(c *fw.Ctx, i int) {
 	pidOn := r.Chance(2, 3)
 	p := &codecs.VP8Payloader{EnablePictureID: pidOn}
 	n := r.Pick(3, 5, 130, 131, r.Range(3, 300))
+	var fork *codecs.VP8Payloader
 	for k := 0; k < n; k++ {
 		desc := 1
 		if pidOn {
@@ -196,6 +197,17 @@ func c11Short(c *fw.Ctx, i int) {
 		}
 		if !c11Frame(c, p, pidOn, k, mtu, frame, k == 0 || k == 127 || k == 128) {
 			return
+		}
+		if fork != nil {
+			// the copy taken earlier runs on as an instance of its own: same frame index, its own state
+			if !c11Frame(c, fork, pidOn, k, mtu, append([]byte(nil), frame...), false) {
+				return
+			}
+		} else if k+1 < n && r.Chance(1, 40) {
+			// the payloader is a plain struct: copied by value in mid-stream (a slice of payloaders that grows, a struct assignment)
+			cp := *p
+			fork = &cp
+			c.Count("payloaders_copied_by_value_in_mid_stream", 1)
 		}
 	}
 	if c.WantSample() {
@@ -268,6 +280,21 @@ func c11Dec(c *fw.Ctx, i int) {
 				// a complete descriptor is not "cut short", whatever follows it (also nothing)
 				c.Fail(fmt.Sprintf("C11/decoder/rejects-well-formed/payload-bytes-%d", minI(plen, 1)), "VP8Packet rejects a complete, well-formed descriptor: "+err.Error(), wit)
 				return
+			}
+			{
+				// the receiver's zero-allocation setting may trim what is stored, never what "the bytes that follow the descriptor" are
+				var z codecs.VP8Packet
+				z.SetZeroAllocation(true)
+				var zb []byte
+				var zerr error
+				if pv, st := fw.Guard(func() { zb, zerr = z.Unmarshal(fw.Exact(in)) }); pv != nil {
+					c.Fail("C11/decoder/panic/"+fw.PanicFunc(st), fmt.Sprintf("VP8Packet.Unmarshal (zero-allocation) panicked: %v", pv), fw.W("input", fw.Hex(in), "stack", st))
+					return
+				}
+				if zerr != nil || !bytes.Equal(zb, in[len(enc):]) {
+					c.Fail("C11/decoder/zero-allocation-receiver/payload-differs", fmt.Sprintf("a zero-allocation VP8Packet returns %d bytes (err %v), %d follow the descriptor", len(zb), zerr, plen), wit)
+					return
+				}
 			}
 			bad := ""
 			b2u := func(b bool) uint8 {
